@@ -214,9 +214,94 @@ structure PSplit where
   markComps : List (Comp × Glyph)
   names : List String
 
+/-! #### `_bounds` / `_distance` / `_component_closest_to_origin` (mark-ligature promotion)
+
+`_bounds(component, glyph_set)` draws the component into a fontTools `BoundsPen(glyph_set)` (ufoLib2) or reads defcon's
+`component.bounds` (the same pen over the component's layer) and keeps `(xMin, yMin)`; the pen's `bounds` is `None` when
+nothing was drawn, and `None[:2]` raises `TypeError`, re-raised as `Exception`.  The filter never changes outlines or
+components, so the value is a function of the component alone: the model takes it as `bnd : Comp → Option (Q × Q)`.
+For outlines without curve segments the pen's rule (bounding box of every point, nested components through composed
+`TransformPen`s, missing nested bases skipped) is `lineBounds` below, and that is what the driver passes; only for outlines
+with curve / qcurve segments (extrema of Béziers: square roots) the harness supplies the pen's value. -/
+
+mutual
+/-- the points `glyph.draw(TransformPen(boundsPen, t))` feeds to the pen; `none` = a curve segment occurs (not modelled)
+    or the fuel ran out -/
+def penPoints (fuel : Nat) (gs : GlyphSet) (t : Affine) (g : Glyph) : Option (List (Q × Q)) :=
+  match fuel with
+  | 0 => none
+  | fuel + 1 =>
+    if g.contours.all (fun c => List.all c (fun (p : Pt) => p.seg == some .line || p.seg == some .move)) then
+      match penPointsComps fuel gs t g.comps with
+      | none => none
+      | some r => some (g.contours.flatMap (fun c => List.map (fun (p : Pt) => t.apply (p.x, p.y)) c) ++ r)
+    else none
+def penPointsComps (fuel : Nat) (gs : GlyphSet) (t : Affine) (ks : List Comp) : Option (List (Q × Q)) :=
+  match ks with
+  | [] => some []
+  | k :: ks =>
+    match gs.get? k.base with
+    | none => penPointsComps fuel gs t ks              -- `skipMissingComponents`
+    | some b =>
+      match penPoints fuel gs (t.compose k.t) b, penPointsComps fuel gs t ks with
+      | some a, some r => some (a ++ r)
+      | _, _ => none
+end
+
+def minQ : Q → List Q → Q
+  | m, [] => m
+  | m, x :: xs => minQ (if x < m then x else m) xs
+
+/-- `pen.bounds[:2]` of a point cloud; `none` = `pen.bounds is None` -/
+def lowerLeft : List (Q × Q) → Option (Q × Q)
+  | [] => none
+  | p :: ps => some (minQ p.1 (ps.map (·.1)), minQ p.2 (ps.map (·.2)))
+
+/-- `_bounds(component, glyph_set)` for outlines made of line segments: outer `none` = not modelled (curves),
+    inner `none` = nothing drawn (`pen.bounds is None`) -/
+def lineBounds (gs : GlyphSet) (k : Comp) : Option (Option (Q × Q)) :=
+  (penPointsComps (gs.length + 1) gs Affine.id [k]).map lowerLeft
+
+/-- `_distance((0, 0), pos)`: the SQUARED distance (no square root in the code) -/
+def dist2 (p : Q × Q) : Q := (0 - p.1) * (0 - p.1) + (0 - p.2) * (0 - p.2)
+
+/-- Python `min(seq, key=...)` on the keys: index and key of the FIRST minimal element -/
+def firstMin : List Q → Option (Nat × Q)
+  | [] => none
+  | d :: ds =>
+    match firstMin ds with
+    | none => some (0, d)
+    | some (i, m) => if m < d then some (i + 1, m) else some (0, d)
+
+/-- the keys `min` evaluates: `none` as soon as one component has no bounds (`TypeError` → `Exception`) -/
+def distKeys (bnd : Comp → Option (Q × Q)) : List (Comp × Glyph) → Option (List Q)
+  | [] => some []
+  | (k, _) :: ms =>
+    match bnd k, distKeys bnd ms with
+    | some p, some r => some (dist2 p :: r)
+    | _, _ => none
+
+/-- `if mark_components and not base_components and _is_ligature_mark(composite): ...`: the mark component whose
+    bounds' lower-left corner is closest to the origin becomes the (only) base component -/
+def promoteSplit (bnd : Comp → Option (Q × Q)) (name : String) (sp : PSplit) : Except GErr PSplit :=
+  if !sp.markComps.isEmpty && sp.baseComps.isEmpty && isLigatureMark name then
+    match distKeys bnd sp.markComps with
+    | none => .error .exception
+    | some keys =>
+      match firstMin keys with
+      | none => .error .assertion          -- unreachable: the list is not empty
+      | some (i, _) =>
+        match sp.markComps[i]? with
+        | none => .error .assertion        -- unreachable
+        | some (k, b) =>
+          .ok ⟨sp.baseComps ++ [(k, b)], sp.markComps.eraseIdx i,
+               b.anchors.foldl (fun l a => addMod l a.name) sp.names⟩
+  else .ok sp
+
 mutual
 /-- `_propagate_glyph_anchors(glyphSet, composite, processed, modified, categories)` -/
-def propagate (fuel : Nat) (marks : List String) (st : FState) (name : String) : Except GErr FState :=
+def propagate (fuel : Nat) (bnd : Comp → Option (Q × Q)) (marks : List String) (st : FState) (name : String) :
+    Except GErr FState :=
   match fuel with
   | 0 => .error .recursion
   | fuel + 1 =>
@@ -228,12 +313,12 @@ def propagate (fuel : Nat) (marks : List String) (st : FState) (name : String) :
       | some g =>
         if g.comps.isEmpty || (marks.contains name && !g.anchors.isEmpty) then .ok st
         else
-          match propagateComps fuel marks st g.comps ⟨[], [], []⟩ with
+          match propagateComps fuel bnd marks st g.comps ⟨[], [], []⟩ with
           | .error e => .error e
-          | .ok (st', sp) =>
-            if !sp.markComps.isEmpty && sp.baseComps.isEmpty && isLigatureMark name then
-              .error .assertion     -- mark-ligature promotion needs outline bounds (external): not modelled
-            else
+          | .ok (st', sp0) =>
+            match promoteSplit bnd name sp0 with
+            | .error e => .error e
+            | .ok sp =>
               -- `for anchor_name in sorted(anchor_names)` (sorted since the fix: commit 3e34893)
               let toAdd := (sortStr sp.names).foldl (fun d an =>
                 if g.anchors.any (fun a => a.name.startsWith an) then d else getAnchorData d sp.baseComps an) []
@@ -242,32 +327,33 @@ def propagate (fuel : Nat) (marks : List String) (st : FState) (name : String) :
               let g' := { g with anchors := g.anchors ++ sorted.map (fun e => ⟨e.1, e.2.1, e.2.2⟩) }
               .ok (if toAdd.isEmpty then st' else
                 { st' with gs := st'.gs.set name g', modified := addMod st'.modified name })
-def propagateComps (fuel : Nat) (marks : List String) (st : FState) (ks : List Comp) (sp : PSplit) :
-    Except GErr (FState × PSplit) :=
+def propagateComps (fuel : Nat) (bnd : Comp → Option (Q × Q)) (marks : List String) (st : FState) (ks : List Comp)
+    (sp : PSplit) : Except GErr (FState × PSplit) :=
   match ks with
   | [] => .ok (st, sp)
   | k :: ks =>
     match st.gs.get? k.base with
-    | none => propagateComps fuel marks st ks sp           -- missing base: warning only
+    | none => propagateComps fuel bnd marks st ks sp           -- missing base: warning only
     | some _ =>
-      match propagate fuel marks st k.base with
+      match propagate fuel bnd marks st k.base with
       | .error e => .error e
       | .ok st' =>
         match st'.gs.get? k.base with
         | none => .error (.missing k.base)
         | some b =>
           if b.anchors.any (fun a => a.name.startsWith "_") then
-            propagateComps fuel marks st' ks { sp with markComps := sp.markComps ++ [(k, b)] }
+            propagateComps fuel bnd marks st' ks { sp with markComps := sp.markComps ++ [(k, b)] }
           else
-            propagateComps fuel marks st' ks
+            propagateComps fuel bnd marks st' ks
               { sp with baseComps := sp.baseComps ++ [(k, b)],
                         names := b.anchors.foldl (fun l a => addMod l a.name) sp.names }
 end
 
 /-- `PropagateAnchorsFilter.filter` -/
-def propagateStep (marks : List String) (st : FState) (g : Glyph) : Except GErr (FState × Bool) :=
+def propagateStep (bnd : Comp → Option (Q × Q)) (marks : List String) (st : FState) (g : Glyph) :
+    Except GErr (FState × Bool) :=
   if g.comps.isEmpty then .ok (st, false)
-  else match propagate (st.gs.length + 1) marks st g.name with
+  else match propagate (st.gs.length + 1) bnd marks st g.name with
     | .error e => .error e
     | .ok st' =>
       let after := match st'.gs.get? g.name with | some g' => g'.anchors.length | none => 0
